@@ -140,3 +140,43 @@ func Harness_C09_recipient_wellformed() {
 	V.Reach("accepted")
 	V.Assert(r.String() == s, "accepted recipient spelling is not canonical")
 }
+
+// Harness_C09_substitute_valid: a valid recipient or identity string (fixed
+// key) with one or two characters replaced by arbitrary other bytes at
+// symbolic positions (so characters outside the Bech32 alphabet, of the other
+// case, '1', and positions inside the prefix are all instances) is never
+// accepted.
+func Harness_C09_substitute_valid() {
+	id := fixedIdentity(1)
+	var s []byte
+	ident := V.Bool("identity")
+	if ident {
+		s = []byte(id.String())
+	} else {
+		s = []byte(id.Recipient().String())
+	}
+	orig := string(s)
+	stride := V.Param("stride", 1)
+	nsub := V.Int("nsub", 1, V.Param("maxsub", 1))
+	p1 := V.Int("p1", 0, (len(s)-1)/stride)*stride + V.Param("phase", 0)
+	V.Assume(p1 < len(s))
+	c1 := V.Byte("c1")
+	V.Assume(c1 != s[p1])
+	s[p1] = c1
+	if nsub == 2 {
+		p2 := V.Int("p2", 0, (len(s)-1)/stride)*stride + V.Param("phase", 0)
+		V.Assume(p2 > p1 && p2 < len(s))
+		c2 := V.Byte("c2")
+		V.Assume(c2 != s[p2])
+		s[p2] = c2
+	}
+	var err error
+	if ident {
+		_, err = ParseX25519Identity(string(s))
+	} else {
+		_, err = ParseX25519Recipient(string(s))
+	}
+	V.Reach("parsed")
+	V.Assert(err != nil, "a key string with substituted characters was accepted")
+	_ = orig
+}
